@@ -154,7 +154,12 @@ fn gen(g: &mut G, thorough: bool) -> Plan {
             // header fields the library itself interprets, built from their own small alphabets
             let pieces: &[&str] = &["text/plain", "text/html", ";", " ", "charset=", "charset", "CHARSET=", "\"", "'", "utf-8", "UTF-16", "=", ",", "\u{e9}", "x", "*", "/"];
             let build = |g: &mut G, n: usize| -> String { (0..g.usize_below(n + 1)).map(|_| *g.pick(pieces)).collect::<String>() };
-            let ct = build(g, 7);
+            let mut ct = build(g, 7);
+            if g.chance(1, 2) {
+                // the charset parameter proper, with values from its own small alphabet
+                let val: String = (0..g.usize_below(4)).map(|_| *g.pick(&["\"", "'", "utf-8", "UTF-16", "x", " ", ";", "=", "\u{e9}"])).collect();
+                ct = format!("{}{}{}{}{}", g.pick(&["text/plain", "text/html", "", "x"]), g.pick(&[";", "; ", " ;  ", ";;"]), g.pick(&["charset", "CHARSET", "Charset"]), g.pick(&["=", "", " = "]), val);
+            }
             let ce: String = (0..g.usize_below(4)).map(|_| *g.pick(&["gzip", "deflate", ",", " ", "identity", "x", "GZIP", "\"", ";q=0"])).collect();
             let loc: String = (0..g.usize_below(5)).map(|_| *g.pick(&["http://", "https://", "//", "/", "..", "a.test", ":", "80", "99999", "[", "]", "::1", "@", "#", "?", "%", " ", "\u{e9}", "\\"])).collect();
             let status = *g.pick(&[200u16, 200, 301, 302, 307, 401, 407]);
